@@ -23,6 +23,9 @@ fn observe(t: &dyn TypeOps, ar: &mut Arena, ar2: &mut Arena, bytes: &[u8], place
             Err(e) => format!("err {}", err_str(&e)),
             Ok((v, s, z, w, wc)) => {
                 let mut out = format!("ok v={} s={} z={} in={}", v, s, z, if p.range_ok { 1 } else { 0 });
+                if let Some(o) = &p.offsets {
+                    out += &format!(" off={}", if o.is_empty() { "-".to_string() } else { o.iter().map(|x| x.to_string()).collect::<Vec<_>>().join(",") });
+                }
                 // the value's own bytes validate again
                 let rv = if v <= len { match t.validate(&sl[..v]) { Ok(()) => "ok".to_string(), Err(e) => format!("err:{}", err_str(&e)) } } else { "oob".into() };
                 out += &format!(" rv={}", rv);
